@@ -74,7 +74,10 @@ PROPS = {
     'C12': {
         'modules': ['OtterVerif.Props.C12'],
         'engines': [seq(['huge', 'expiry', 'load'], 360, 9000,
-                        lambda f: f['class'] in ('entry', 'result', 'events') and f['op'] not in ('end', 'call', 'ret'))],
+                        lambda f: f['class'] in ('entry', 'result', 'events') and f['op'] not in ('end', 'call', 'ret')),
+                    # deadlines under concurrency: the deadline of a read made under the bucket lock, an override racing a failed reload's "keep"
+                    {'kind': 'unit', 'name': 'concwindow', 'hcmd': 'conc-window', 'dcmd': 'concwindow', 'quick': 40, 'thorough': 2000, 'chunk': 10, 'args': [],
+                     'accept': lambda f: 'C12' in f['msg']}],
         'assumptions': ["int64 arithmetic of Go modelled as Int with explicit two's-complement wrap (wrapS 64)"],
     },
     'C19': {
